@@ -230,8 +230,12 @@ def finish(ctx, meta):
     known_hit = 0
     replay_dir = os.path.join(os.environ.get('VERIF_OUT_DIR') or os.path.join(VERIF, 'out'), 'replays')
     os.makedirs(replay_dir, exist_ok=True)
+    MAXREP = 40
     for sig in sorted(by_sig):
         vs = by_sig[sig]
+        if new_viol >= MAXREP and sig not in known_sigs:
+            new_viol += 1
+            continue
         if sig in known_sigs:
             known_hit += 1
             print('KNOWN-FINDING: property=%s %s (%d cases; signature %s)'
@@ -262,6 +266,8 @@ def finish(ctx, meta):
         print('  signature: %s' % sig)
         print('  detail: %s' % str(v.get('detail'))[:600])
         rc = 1 if rc != 2 else rc
+    if new_viol > MAXREP:
+        print('(%d further violation signatures not listed individually)' % (new_viol - MAXREP))
     if res.crashed:
         for c in res.crashed[:10]:
             print('HARNESS-ERROR: ' + c)
